@@ -13,6 +13,7 @@ package main
 //                    Clone + CloseIdleConnections concurrently, snapshot sampler (SnapCase)
 //          wire    - HTTP/1.1 keep-alive against a raw TCP origin that watches the wire for
 //                    overlapping requests; caller-side exclusive-use / serial-number oracles
+//          h2replay- deterministic forced-HTTP/2 scenarios replayed through Model/H2Pool.v
 //          h2      - multiplexed HTTP/2 streams, out-of-order answers (DemuxCase)
 //          h3      - HTTP/3 streams on loopback UDP, and Alt-Svc upgrade h2 -> h3
 
@@ -60,11 +61,12 @@ func (cr *childResult) add(coq string, desc interface{}, key string, nt bool) {
 }
 
 var phases = map[string]func(cr *childResult, seed uint64, quick bool){
-	"replay": phaseReplay,
-	"h1":     phaseH1,
-	"h2":     phaseH2,
-	"h3":     phaseH3,
-	"wire":   phaseWire,
+	"replay":   phaseReplay,
+	"h1":       phaseH1,
+	"h2":       phaseH2,
+	"h3":       phaseH3,
+	"wire":     phaseWire,
+	"h2replay": phaseH2Replay,
 }
 
 func main() {
@@ -101,7 +103,7 @@ func runC09(r *hk.Run) {
 		return
 	}
 	os.MkdirAll(r.OutDir, 0o755)
-	for _, ph := range []string{"replay", "h1", "wire", "h2", "h3"} {
+	for _, ph := range []string{"replay", "h2replay", "h1", "wire", "h2", "h3"} {
 		out := fmt.Sprintf("%s/child_%s.json", r.OutDir, ph)
 		os.Remove(out)
 		cmd := exec.Command(exe, "child", ph, fmt.Sprint(r.Seed), r.Tier, out)
